@@ -35,10 +35,9 @@ RULE = ("cases = (a) stacks: a stack name (blanks, dots, '+'), 3-6 declarations 
         "declare -t (re-pointing) / forced redeclaration of ONE flavor, comparing every other flavor's block of every "
         "version and chain record (parsed and as text) before and after. Non-trivial: (a) at least one declaration "
         "succeeded and was read back after the relocation, (b,c) always; distinct = distinct case digests")
-TRUSTED = ["the Lean model has no symbolic links (os.path.realpath = identity): for stacks reached through a link the "
-           "harness asks it about the names EUPS_PATH uses; with real-path arguments below a linked stack the record "
-           "text is not predicted by the model, only its readers and oracle (ii) are checked; os.path.join/abspath on "
-           "normalised paths = concatenation of segments",
+TRUSTED = ["os.path.realpath = replacement of the one symbolic link of the scratch tree (the stack's EUPS_PATH entry, when the "
+           "case has one) by its target: the model's `realOf`, used where the code resolves links (VersionFile.write); "
+           "the theorems are stated for real = identity; os.path.join/abspath on normalised paths = concatenation of segments",
            "CPython `re` on the record patterns (^(\\w+)\\s*=\\s*(.*), #.*$, ^(End|Group)\\s*:, quote stripping), "
            "ASCII input, no carriage returns",
            "the current directory of a command holds no entry named like a relative record value, except in the "
@@ -302,18 +301,8 @@ def _glue_req(case, p, obs, newroot):
         if "path" in x:
             x["path"] = _p(obs["R"], case["stack"], x["path"])
         return x
-    root = obs["real"] if case.get("link") == "link_real_args" else obs["stack"]
-    return {"m": "c16", "op": "glue", "root": root, "new_root": newroot, "name": p["name"],
+    return {"m": "c16", "op": "glue", "root": obs["stack"], "new_root": newroot, "name": p["name"],
             "version": p["version"], "flavor": p["flavor"], "dir": pl(p["dir"]), "table": pl(p["table"])}
-
-
-def _real_names(case, obs, prod):
-    """With real-path arguments (EUPS_PATH names a link, the user types real paths) the model - which knows no
-    symbolic links - is asked about the real names throughout: the stack's own path is mapped to the real one."""
-    if case.get("link") != "link_real_args" or prod is None:
-        return prod
-    st, real = obs["stack"], obs["real"]
-    return {k: (real + v[len(st):] if isinstance(v, str) and (v + "/").startswith(st + "/") else v) for k, v in prod.items()}
 
 
 def check_reloc(ctx, case, obs):
@@ -325,15 +314,15 @@ def check_reloc(ctx, case, obs):
         p = case["products"][rec["i"]]
         if rec["status"] != "ok" or rec["prod"] is None:
             continue
-        if case.get("link") == "link_real_args":
-            # the model knows no symbolic links: with real-path arguments below a linked stack the code takes other
-            # (equivalent) branches of canonicalizePaths/addFlavor and relativises in VersionFile.write through
-            # os.path.realpath; the text of the record is then not predicted - it is compared through its readers
-            # (the model resolves the actual text) and by oracle (ii)
-            ctx.hist("model=no-symlinks(record text not predicted)")
-            continue
-        reqs.append(_glue_req(case, p, obs, new)); tags.append(("glue", rec["i"]))
-        reqs.append({"m": "c16", "op": "declare", "prod": _real_names(case, obs, rec["prod"]), "ex": rec["ex"], "who": lib_records.WHO,
+        links = [[obs["stack"], obs["real"]]] if case.get("link") else []
+        if case.get("link") != "link_real_args":
+            reqs.append(_glue_req(case, p, obs, new)); tags.append(("glue", rec["i"]))
+        else:
+            # arguments typed by their real paths below a linked stack: the Product that Eups.declare builds mixes the
+            # two spellings (real directory, database through the link); the glue model has one root and is not asked;
+            # the record is predicted from that Product with os.path.realpath = the link map (VersionFile.write)
+            ctx.hist("model=glue-not-asked(real-path arguments)")
+        reqs.append({"m": "c16", "op": "declare", "prod": rec["prod"], "ex": rec["ex"], "who": lib_records.WHO, "links": links,
                      "now": "T%d" % (rec["clock0"] + 1), "old_text": rec["old_text"]}); tags.append(("declare", rec["i"]))
     last = {}
     for rec in obs["decl"]:
@@ -364,7 +353,7 @@ def check_reloc(ctx, case, obs):
         if "bad-op" in ans:
             raise common.InfraError("driver: %s" % ans)
         if tag == "glue":
-            impl = dict(_real_names(case, obs, rec["prod"]))
+            impl = dict(rec["prod"])
             mo = {k: ans["prod"][k] for k in impl}
             if impl != mo:
                 ctx.disagree("declare_glue", inp, lib_records.subst(impl, pairs), lib_records.subst(mo, pairs), note="product %d" % i)
